@@ -821,13 +821,16 @@ func checkMaxDistance(c xabl) ev.Outcome {
 // ---------------------------------------------------------------------------
 // e) Project, DistanceFraction, Interpolate, InterpolateAtDistance
 
-// Project normalises p = x − (x·n̂)n̂ whose length is cos(dist to the great
-// circle); an ε-sized absolute error in p becomes a direction error ε/|p|.
-// Stated before running: positional tolerance tolPt/|p| for the on-edge claim
-// (re-derived after the first run: the same scaling applies to the realised
-// distance, because a point off the great circle is nearer to / farther from
-// x in first order). Within 1e-6 rad of the edge's pole the tolerance stays
-// at tolPt/1e-6 = 1e-8 rad and failures there are classed "project-near-pole".
+// Positional tolerance for Project: the a-priori tolPt (1e-14 rad), flat.
+//
+// History: the first runs (against /repo before ef6b382) showed Project's
+// x − (x·n̂)n̂ formula amplifying its ε-sized absolute error by 1/cos(dist to
+// the great circle): 1.4e-12 rad off the edge 1e-4 rad from the pole, an
+// arbitrary point at the pole itself. That was reported as finding class
+// "project-near-pole" and repaired in /repo ((n̂×x)×n̂, which stays on the
+// great circle); a tolerance scaled by 1/cos was used only while searching
+// behind the defect. cosGC < 1e-6 is still reported as class ",pole" and a
+// failure there keeps the narrow finding label.
 //
 // "Realises the distance" is compared in chord² units, the representation the
 // library measures in: the documented chord² bound plus the chord² image
@@ -838,7 +841,7 @@ func posTol(g pe) (tol, cosGC float64) {
 	if g.degenerate == 0 {
 		cosGC = math.Sqrt(math.Max(0, 1-g.sinGC*g.sinGC))
 	}
-	return tolPt / math.Max(cosGC, 1e-6), cosGC
+	return tolPt, cosGC
 }
 
 func realiseTol(g pe, pt float64) float64 {
@@ -907,7 +910,7 @@ func checkProject(c xab) (o ev.Outcome) {
 	o.Ratios = ratios
 	tag := domainTag(g)
 	if cosGC < 1e-6 {
-		tag += " (pole, tol capped at 1e-8)"
+		tag += " (pole)"
 	}
 	defer func() { tagRatios(&o, tag) }()
 	if msg != "" {
@@ -1213,7 +1216,7 @@ func checkEdgePair(c pair) ev.Outcome {
 			cosMin = math.Min(cosMin, math.Sqrt(math.Max(0, 1-g.sinGC*g.sinGC)))
 		}
 	}
-	pt := 2 * tolPt / math.Max(cosMin, 1e-6)
+	pt := 2 * tolPt
 	poleFinding := func() {
 		if cosMin < 1e-6 {
 			o.Finding = "project-near-pole"
@@ -1581,11 +1584,7 @@ func checkPolylineProject(c plCase) ev.Outcome {
 	if n == 1 {
 		gbest = pointEdge(x, vs[0], vs[0])
 	}
-	ptol, _ := posTol(gbest)
-	if pole {
-		ptol = tolPt / 1e-6
-	}
-	ptol *= 2
+	ptol := 2 * tolPt
 	cp := hp.Chord2(hpV(x), hpV(pt))
 	tolD := 2*2*boundAt(gbest.d2f, gbest.d2f) + 2*ptol*(1+best)*math.Max(math.Sin(best), ptol)
 	e := absDiff(gbest.d2f, cp)
@@ -1719,13 +1718,13 @@ func init() {
 		Rule:  dom + "Oracle: 4 − true min chord² from −x. Claims: error ≤ doc bound at the antipodal distance + vertex bound + 2ε; threshold form exactly equals limit < full distance; max ≥ min. Non-trivial = −x near the decision boundary, −x within 1e-12 of the edge, or max within 1e-6 of 90°.",
 		Quick: 50000, Thorough: 2000000}, genXABL, clean(checkMaxDistance))
 	ev.Define("project", ev.Options{
-		Rule:  dom + "Claims: Project is a finite unit point, realises the true distance within 1e-14(1+d) rad, lies on the edge within 1e-14/cos(dist to great circle) rad (no on-edge claim within 1e-6 of the pole), endpoints project to themselves, reported chord² equals the realised one within the bounds. Non-trivial = as min_distance, or x within 1e-6 of the edge's pole.",
+		Rule:  dom + "Claims: Project is a finite unit point, realises the true distance within 1e-14(1+d) rad, lies on the edge within 1e-14 rad (also at the edge's pole), endpoints project to themselves, reported chord² equals the realised one within the bounds. Non-trivial = as min_distance, or x within 1e-6 of the edge's pole.",
 		Quick: 50000, Thorough: 2500000}, genXAB, clean(checkProject))
 	ev.Define("interpolate", ev.Options{
 		Rule:  "edges as above; t in {0,1,k/n, (0,1) incl. 1e-18 and 1−1e-16, outside [0,1] down to −3 and up to 4}; distances uniform ±2π, ±1e-300…1, constants. Oracle: a·cos+t̂·sin with a 320-bit tangent. Claims: Interpolate(0/1) exact; InterpolateAtDistance lands |ax| from a and within 1e-14(1+|ax|) of the true point; Interpolate(t) within 1e-14(1+|t|)(1+edge); Interpolate(DistanceFraction(x)) within 2e-14 of an independently built on-edge x. Non-trivial = t outside [0,1], edge < 1e-12 or > π−1e-6, or |ax| < 1e-12.",
 		Quick: 50000, Thorough: 2000000}, genInterp, clean(checkInterpolate))
 	ev.Define("edge_pair", ev.Options{
-		Rule:  "edge A as above; edge B crossing/touching A at a drawn point, A displaced sideways by 1e-300…0.1, sharing a vertex, collinear, built from query-point families, or independent. Oracle: exact-integer proper-crossing test, else min of the four true vertex–edge distances. Claims: EdgePairClosestPoints are unit, on their edges (2e-14/cos) and realise the true minimum within 2e-14(1+d); identical when crossing. Non-trivial = crossing, degenerate (zero determinant), distance < 1e-9 or closest vertex near its decision boundary.",
+		Rule:  "edge A as above; edge B crossing/touching A at a drawn point, A displaced sideways by 1e-300…0.1, sharing a vertex, collinear, built from query-point families, or independent. Oracle: exact-integer proper-crossing test, else min of the four true vertex–edge distances. Claims: EdgePairClosestPoints are unit, on their edges (2e-14 rad) and realise the true minimum within 2e-14(1+d); identical when crossing. Non-trivial = crossing, degenerate (zero determinant), distance < 1e-9 or closest vertex near its decision boundary.",
 		Quick: 25000, Thorough: 600000}, genPair, clean(checkEdgePair))
 	ev.Define("polyline_interpolate", ev.Options{
 		Rule:  "polylines of 1…200 vertices (75% ≤ 12), edge lengths log-uniform 1e-15…2.5 around a common scale, 1/6 with zero-length edges; fractions 0, 1, outside [0,1], k/n, vertex fractions ± 2 ulps, uniform. Model: true cumulative lengths. Claims: Length within tol; next in [1,n]; point on the edge before next; next==n ⇒ last vertex; point ≠ vertex[next] (valid polylines); arc position = f·L within (n+1)·1e-14·(1+L); Uninterpolate returns f. Non-trivial = fraction hits a vertex (1e-9 rel), is clamped, or zero-length edges present.",
